@@ -32,25 +32,32 @@ type stCase struct {
 	N      int    `json:"n"`
 	Child  string `json:"child"` // none | exitfirst | outlive | killed | orphanexit | orphankilled
 	CN     int    `json:"cn"`
-	Core   int    `json:"core"` // 1: core dumps enabled (RLIMIT_CORE > 0, writable work dir)
+	Core   int    `json:"core"`   // 1: core dumps enabled (RLIMIT_CORE > 0, writable work dir)
+	Cancel string `json:"cancel"` // none | afterend | race: the caller cancels its context around the program's end
+	Rep    int    `json:"rep"`    // repetition number (racing cases)
 }
 
 type stObs struct {
 	stCase
-	Status int           `json:"status"`
-	Exit   int           `json:"exit"`
-	ErrLen int           `json:"errlen"`
-	Err    string        `json:"err"`
-	Report []limrun.Line `json:"report"`
-	EOF    bool          `json:"eof"`
-	Ext    bool          `json:"ext"`
-	Setup  string        `json:"setup"`
+	Status     int           `json:"status"`
+	Exit       int           `json:"exit"`
+	ErrLen     int           `json:"errlen"`
+	Err        string        `json:"err"`
+	Report     []limrun.Line `json:"report"`
+	EOF        bool          `json:"eof"`
+	Ext        bool          `json:"ext"`
+	Setup      string        `json:"setup"`
+	Cancelled  bool          `json:"cancelled"`
+	EndedFirst bool          `json:"endedfirst"` // the program was a zombie (ended by itself) before the cancel
 }
 
 var faultName = map[int]string{11: "segv", 4: "ill", 8: "fpe", 5: "trap", 7: "bus"}
 
 func specOf(c stCase) (limrun.Spec, error) {
 	s := limrun.Spec{Runner: c.Runner, Limit: runner.Limit{TimeLimit: 1 << 40, MemoryLimit: 1 << 40}, Core: c.Core == 1}
+	if c.Cancel != "" && c.Cancel != "none" {
+		s.Cancel = c.Cancel
+	}
 	switch c.Child {
 	case "none", "outlive":
 		s.Child = c.Child
@@ -100,6 +107,7 @@ func runCase(e *limrun.Env, c stCase) stObs {
 	o.EOF = out.ReportEOF
 	o.Ext = out.ExtSent
 	o.Setup = out.Setup
+	o.Cancelled, o.EndedFirst = out.Cancelled, out.EndedFirst
 	return o
 }
 
